@@ -258,6 +258,8 @@ def check_C12(res, ctx):
         corrupt.check_truncated_hinted(res, ctx, rng_for(ctx.seed, "C12t", i))
     for i in range(1 if ctx.quick else 12):
         corrupt.check_structural(res, ctx, rng_for(ctx.seed, "C12s", i))
+    for i in range(2 if ctx.quick else 24):
+        corrupt.check_truncate_then_write(res, ctx, rng_for(ctx.seed, "C12w", i))
     return "every single-bit flip of every byte of the data / hint / marker files of small databases (exhaustive unless counted under files_sampled), " \
            "then Open + dump + Fold; random multi-byte overwrites, truncations (also exactly at block boundaries), cut-out ranges, zero runs and " \
            "64-byte garbage on larger ones; structural damage that keeps every chunk checksum valid (record cut between two of its chunks, missing " \
